@@ -429,7 +429,24 @@ def run_case(case):
                 what = "input-path" if got is not None and got.strip() == pin else "other"
                 out.append(viol("cli-%s:differs:%s" % (tag, what), "transformer.main wrote something else than the library returns for the file's content",
                                 (got or "<no file>")[:200], res_text[:200]))
-            elif res_text == text:
+            if got == res_text:
+                # the same request with the OUTPUT path equal to the INPUT path (editing a file in place), and into an output file that already exists
+                # and holds a longer text: the file must end up holding exactly the library's result
+                argv_in = [pin, pin] + argv[2:]
+                rci = observe(run_cli, argv_in)
+                goti = open(pin).read() if rci[0] == "ok" and os.path.exists(pin) else None
+                if goti != res_text:
+                    out.append(viol("cli-%s:differs:in-place" % tag, "transformer.main with the output path equal to the input path left something else than the library's result in the file",
+                                    repr((goti if goti is not None else "<no file / raised>")[:120]), repr(res_text[:120])))
+                with open(pin, "w") as f:
+                    f.write(text)
+                with open(pout, "w") as f:
+                    f.write(res_text + "\n# left over from an earlier, longer output\n" * 3)
+                rco = observe(run_cli, argv)
+                goto = open(pout).read() if rco[0] == "ok" and os.path.exists(pout) else None
+                if goto != res_text:
+                    out.append(viol("cli-%s:differs:existing-output" % tag, "transformer.main writing over an existing, longer output file left something else than the library's result", repr((goto or "<no file>")[-120:]), repr(res_text[-120:])))
+            if got == res_text and res_text == text:
                 # nothing was edited (absent category / item): the same request on the same document with another END OF FILE - blank lines, trailing
                 # blanks, no final newline - must again write exactly what the library returns for that content
                 for tname, tail in (("blank-lines", "\n\n\n"), ("trailing-blanks", "   \n"), ("no-final-newline", "")):
